@@ -82,3 +82,61 @@ Definition check_prime_bounds (c : rtb) (lo hi : fl) : list nat :=
 
 (* the model's parameters (for notes / debugging) *)
 Definition show_params (c : rtb) := map (I.output true) (paramsI prec ulps (rtb_params c) []).
+
+(* ---- is "reported log_j - true log|det J|" one constant over the points of a configuration? ------------------
+   The model's log-Jacobian IS the true log|det J| of the map up to a point-independent constant (theorems
+   C07_update_ok / C07_rtb_denotes: constant 0; C07_polar_logdet: ln s; C07_to_cartesian_jacobian: ln (sc/(b-a)) - ...;
+   C07_spherical_logdet: 0; C07_*_lj_denotes for the expressions evaluated here).  D_j = lj_j - E_j encloses the offset at
+   point j; a pair (j, k) with upper D_j < lower D_k proves that no single constant fits: a concrete failing input. *)
+Definition offs (y : fl) (E : I.type) : option I.type :=
+  match y with
+  | Some (m, e) => if I.bounded E then Some (I.sub prec (pointI prec m e) E) else None
+  | None => None
+  end.
+
+Definition check_point_full (blocks : list block) (o : obs) : list nat * option I.type * option I.type :=
+  let fw := combI_fwd prec ulps (zip3 blocks (map (map ptI) (o_in o)) (map ptI (o_aux o))) I.zero in
+  let jf := worst (judge_ll (o_xp o) (fst fw)) in
+  let jl := judge (o_lj o) (snd fw) in
+  if all_some (o_xp o) then
+    let ys := map (fun l => map ptI (unsome l)) (o_xp o) in
+    let bw := combI_bwd prec ulps (rev (zip3 blocks ys (map ptI (o_aux o)))) I.zero in
+    let jb := worst (judge_ll (rev (o_xb o)) (fst bw)) in
+    let jlb := judge (o_ljb o) (snd bw) in
+    ([jf; jl; jb; jlb], offs (o_lj o) (snd fw), offs (o_ljb o) (snd bw))
+  else ([jf; jl; 4; 4]%nat, offs (o_lj o) (snd fw), None).
+
+Fixpoint pick (better : I.type -> I.type -> bool) (l : list (nat * option I.type)) (best : option (nat * I.type))
+  : option (nat * I.type) :=
+  match l with
+  | [] => best
+  | (_, None) :: r => pick better r best
+  | (j, Some d) :: r =>
+      pick better r (match best with
+                     | None => Some (j, d)
+                     | Some (_, b) => if better d b then Some (j, d) else best
+                     end)
+  end.
+
+Definition separated (dj dk : I.type) : bool := I.F'.lt' (I.upper dj) (I.lower dk).
+
+Definition offset_witness (ds : list (option I.type)) : list nat :=
+  let ix := combine (seq 0 (length ds)) ds in
+  match pick (fun d b => I.F'.lt' (I.upper d) (I.upper b)) ix None,
+        pick (fun d b => I.F'.lt' (I.lower b) (I.lower d)) ix None with
+  | Some (j, dj), Some (k, dk) => if separated dj dk then [j; k] else []
+  | _, _ => []
+  end.
+
+(* verdicts per point, then the forward and the inverse witness (each [] or [j; k]) *)
+Definition check_case2 (c : list block * list obs) : list (list nat) :=
+  let rows := map (check_point_full (fst c)) (snd c) in
+  map (fun r => fst (fst r)) rows
+  ++ [offset_witness (map (fun r => snd (fst r)) rows); offset_witness (map snd rows)].
+
+(* the enclosures of the log-Jacobians at one point, for the replay of a witness *)
+Definition lj_enclosures (blocks : list block) (o : obs) :=
+  let fw := combI_fwd prec ulps (zip3 blocks (map (map ptI) (o_in o)) (map ptI (o_aux o))) I.zero in
+  let ys := map (fun l => map ptI (unsome l)) (o_xp o) in
+  let bw := combI_bwd prec ulps (rev (zip3 blocks ys (map ptI (o_aux o)))) I.zero in
+  (I.output true (snd fw), I.output true (snd bw)).
